@@ -21,6 +21,7 @@ from rpv import families
 from rpv.checks.inproc_util import get_ip, sched_from_json, sched_json
 from rpv.gen import METHODS, OUT_TYPES, Profile, history
 from rpv.model import Model
+from rpv.workload import deepen
 from rpv.oracle.balance import is_valid
 from rpv.oracle.trace import ExactStats, check_exact
 
@@ -148,7 +149,7 @@ def run_shard(ctx: Any) -> None:
                     for method in METHODS:
                         _observe(ctx, ip, monitor, hist, {1970: method}, exact=True)
             else:
-                hist = history(rng, PROFILES[index % len(PROFILES)])
+                hist = history(rng, deepen(ctx, index, PROFILES[index % len(PROFILES)]))
                 if is_valid(Model(hist)):
                     for method in rng.sample(list(METHODS), 2):
                         _observe(ctx, ip, monitor, hist, {1970: method}, exact=False)
